@@ -293,6 +293,64 @@ class GridSelection(Scenario):
             return "ok"
 
 
+class BlockSelection(Scenario):
+    """BlockModel: mask_by_extent on cell centres; copy_from_extent keeps the grid and blanks values outside the box"""
+    pid = "C13"
+    builtins_for = (UTILS,)
+
+    def body(self, cx):
+        from geoh5py.workspace import Workspace
+        from geoh5py.objects import BlockModel
+        (nu, nv, nz), d, inverse = self.params["shape"], self.params["d"], self.params["inverse"]
+        ws = Workspace()
+        bm = BlockModel.create(ws, origin=[0.0, 0.0, 0.0], u_cell_delimiters=real_np.arange(nu + 1.0),
+                               v_cell_delimiters=real_np.arange(nv + 1.0), z_cell_delimiters=real_np.arange(nz + 1.0))
+        n = nu * nv * nz
+        bd = bm.add_data({"bd": {"values": real_np.zeros(n), "association": "CELL"}})
+        patch.detach(ws, bm, bd)
+        with self.engine(cx) as X:
+            du = [0.0] + [cx.real(f"du{i}") for i in range(1, nu + 1)]
+            dv = [0.0] + [cx.real(f"dv{i}") for i in range(1, nv + 1)]
+            dz = [0.0] + [cx.real(f"dz{i}") for i in range(1, nz + 1)]
+            o = [cx.real(f"o{a}") for a in "xyz"]
+            D = [cx.real(f"g{i}") for i in range(n)]
+            bm.u_cell_delimiters = mk_array(X, du, (nu + 1,), "float64")
+            bm.v_cell_delimiters = mk_array(X, dv, (nv + 1,), "float64")
+            bm.z_cell_delimiters = mk_array(X, dz, (nz + 1,), "float64")
+            bm.origin = list(o)
+            bd.values = mk_array(X, D, (n,), "float64")
+            cen = [None] * n
+            for i, j, k in itertools.product(range(nu), range(nv), range(nz)):
+                cen[k + i * nz + j * nu * nz] = [o[0] + (du[i] + du[i + 1]) / 2, o[1] + (dv[j] + dv[j + 1]) / 2,
+                                                 o[2] + (dz[k] + dz[k + 1]) / 2]
+            lo, hi, ext = _box(cx, X, d)
+            qual = [_inside(p, lo, hi, inverse) for p in cen]
+            miss = _bbox_miss(cen, lo, hi)
+            mask = bm.mask_by_extent(ext, inverse=inverse)
+            if mask is None:
+                cx.prove(Or(miss, Not(Or(qual))), "None only if the box misses the bounding box or nothing qualifies",
+                         "None only when allowed")
+            else:
+                me = elems(mask)
+                cx.prove(shape(mask) == (n,) and And([Iff(me[q], qual[q]) for q in range(n)]),
+                         "cell-centre mask == closed-box predicate (index k + i*nZ + j*nU*nZ)", "mask exact")
+            new = bm.copy_from_extent(ext, inverse=inverse)
+            if new is None:
+                cx.prove(Or(miss, Not(Or(qual))), "copy: None only if the box misses the bounding box or nothing qualifies",
+                         "None only when allowed")
+                return "none"
+            kids = [k_ for k_ in new.children if getattr(k_, "name", None) == "bd"]
+            cx.prove(len(kids) == 1 and shape(kids[0].values) == (n,), "copied data has one value per cell", "copy data")
+            if len(kids) == 1 and shape(kids[0].values) == (n,):
+                vals = elems(kids[0].values)
+                for q in range(n):
+                    if is_nan(vals[q]):
+                        cx.prove(Not(qual[q]), f"cell {q} blanked only outside the selection", "copy data")
+                    else:
+                        cx.prove(And(qual[q], eq(vals[q], D[q])), f"cell {q} keeps its value iff selected", "copy data")
+            return "ok"
+
+
 def scenarios(tier, seed):
     S = []
     if tier == "quick":
@@ -306,7 +364,8 @@ def scenarios(tier, seed):
               GridSelection(nu=2, nv=2, d=2, inverse=True),
               GridSelection(nu=4, nv=2, d=2, inverse=False, rot=("3/5", "4/5")),
               DataSelection(kind="curve", n=3, m=2, d=2, inverse=True),
-              DataSelection(kind="surface", n=3, m=1, d=3, inverse=False)]
+              DataSelection(kind="surface", n=3, m=1, d=3, inverse=False),
+              BlockSelection(shape=(2, 1, 2), d=3, inverse=False)]
     else:
         for d in (2, 3):
             for inv in (False, True):
@@ -321,6 +380,8 @@ def scenarios(tier, seed):
               GridSelection(nu=3, nv=2, d=2, inverse=False, rot=("0", "1")),
               GridSelection(nu=4, nv=2, d=2, inverse=False, rot=("3/5", "4/5")),
               GridSelection(nu=2, nv=4, d=2, inverse=False, rot=("5/13", "12/13"))]
+        S += [BlockSelection(shape=(2, 1, 2), d=3, inverse=False), BlockSelection(shape=(2, 2, 1), d=2, inverse=True),
+              BlockSelection(shape=(1, 2, 2), d=3, inverse=True), BlockSelection(shape=(2, 2, 2), d=3, inverse=False)]
         for kind, n, m in (("curve", 4, 3), ("surface", 4, 2)):
             for d in (2, 3):
                 for inv in (False, True):
@@ -338,10 +399,10 @@ def main(tier, seed):
             "grid rotation: 0, or an exact rational unit-circle point substituted for cos/sin of the angle (listed stub); dip 0",
             "cell sizes > 0",
         ],
-        outside=["groups recursing over children, GeoImage, drillholes, block models, octrees", "arbitrary (irrational) rotations and non-zero dip",
+        outside=["groups recursing over children, GeoImage, drillholes, octrees, rotated block models", "arbitrary (irrational) rotations and non-zero dip",
                  "shapes larger than the bounds", "float rounding at box faces"],
         bounds={"quick": "<=3 points, <=2 cells, boxes in 2-D and 3-D, inverse on/off; Grid2D 2x2, 3x1 and a rotated 4x2; data-level masks on curve / surface children",
                 "thorough": "<=4 points, <=3 cells; Grid2D up to 3x3 / 4x2, three rational rotations"}[tier],
-        expected_outcomes={"VertexSelection": {"ok"}, "GridSelection": {"ok"}, "DataSelection": {"ok"}},
+        expected_outcomes={"VertexSelection": {"ok"}, "GridSelection": {"ok"}, "DataSelection": {"ok"}, "BlockSelection": {"ok"}},
         timeout_ms=10000 if tier == "quick" else 30000,
     )
